@@ -715,6 +715,57 @@ pub fn triple_scenarios(g: &Geo, setups_filter: &[&str], wide: bool) -> Vec<Sche
     out
 }
 
+/// two tasks of two operations each (all unordered pairs of 2-sequences over a 6-operation menu)
+pub fn duo2_scenarios(g: &Geo, setups_filter: &[&str]) -> Vec<SchedScenario> {
+    let (cs, bs, tb) = (g.cs(), g.bs(), g.tb());
+    let w = |off: u64, len: u64, tag: u32| Op::Write { off, len: len as usize, tag };
+    let menu: Vec<(&str, Op)> = vec![
+        ("wX2", w(2 * cs, cs, 0x11)),
+        ("wT", w(tb, bs, 0x12)),
+        ("wU", w(2 * tb.min(g.vsize() / 4), bs, 0x13)),
+        ("dX", Op::Discard { off: 0, len: cs }),
+        ("rX", Op::Read { off: 0, len: (2 * cs) as usize }),
+        ("flush", Op::Flush),
+    ];
+    let seqs: Vec<(usize, usize)> = (0..menu.len()).flat_map(|a| (0..menu.len()).filter(move |b| *b != a).map(move |b| (a, b))).collect();
+    let cfg = cfg_of(g, "small");
+    let mut out = vec![];
+    for (sn, ik, setup) in sched_setups(g) {
+        if !setups_filter.contains(&sn) {
+            continue;
+        }
+        let img = sched_image(g, ik);
+        for i in 0..seqs.len() {
+            for j in i..seqs.len() {
+                let (a, b) = seqs[i];
+                let (c, d) = seqs[j];
+                let t0 = vec![menu[a].1.clone(), menu[b].1.clone()];
+                let mut t1 = vec![menu[c].1.clone(), menu[d].1.clone()];
+                for op in t1.iter_mut() {
+                    if let Op::Write { tag, .. } = op {
+                        *tag += 0x20;
+                    }
+                }
+                // at least two modifying operations that are not flushes
+                let n = t0.iter().chain(t1.iter()).filter(|o| matches!(o, Op::Write { .. } | Op::Discard { .. })).count();
+                if n < 2 {
+                    continue;
+                }
+                out.push(SchedScenario {
+                    name: format!("duo2:{}:{};{}||{};{}", sn, menu[a].0, menu[b].0, menu[c].0, menu[d].0),
+                    img: img.clone(),
+                    cfg: cfg.clone(),
+                    cfg_name: "small".into(),
+                    setup: setup.clone(),
+                    tasks: vec![t0, t1],
+                    fused: true,
+                });
+            }
+        }
+    }
+    out
+}
+
 pub struct SchedPlan {
     pub scenarios: Vec<SchedScenario>,
 }
@@ -935,6 +986,10 @@ pub fn sched_family(prop: &str) -> i32 {
     }
     // three concurrent calls over three slices of a 2-slice cache
     scenarios.extend(triple_scenarios(&g, if thorough { &["Xdirty", "XYflushed", "XYcold"] } else { &["Xdirty"] }, thorough));
+    if thorough {
+        scenarios.extend(triple_scenarios(&images::G9, &["Xdirty", "XYflushed"], false));
+        scenarios.extend(duo2_scenarios(&g, &["Xdirty", "XYcold"]));
+    }
     // metadata growth racing other calls (slow executions: 2 MiB images): one of each kind in the quick tier
     scenarios.extend(growth_sched_scenarios().into_iter().filter(|s| thorough || s.name.ends_with("-vs-flush")));
     if let Ok(f) = std::env::var("QMC_ONLY") {
